@@ -129,4 +129,8 @@ def run(ctx):
     # REDETECT = C03.TIPCHECK
     from . import c03
     ctx.rule('C05.REDETECT', lambda: c03.rule_tipcheck(ctx, 'C05.REDETECT'), 5)
+    ctx.rule('C05.STATEALIAS', lambda: c04.rule_statealias(ctx, 'C05'), 2)
+    # the restarted process re-runs the reorganisation from whatever was committed: every static condition of a correct
+    # reorganisation (C03) is also a necessary condition here
+    c03.run(ctx)
     ctx.note(f'inlined effect graph of DB.flush_backup: {ig.stats()}')
